@@ -98,7 +98,7 @@ func c16Structure(c *Ctx) {
 		}
 		c.Floor("R3.trailing", n, 1, "call of the certificate builder in ParseCertificate")
 	}
-	if pk := w.Func(attestPkg, "parsePublicKey"); pk != nil {
+	if pk := funcBySignature(w, attestPkg, "crypto/x509.PublicKeyAlgorithm", "publicKeyInfo"); pk != nil {
 		c.Saw(pk)
 		f := w.Facts(pk)
 		rsaArm := func(b *ssa.BasicBlock) bool {
